@@ -46,6 +46,12 @@ func rulesC07(w *World, r *Report) {
 	w.ruleKindNarrowing(r, "C07.R4 no silent narrowing in the kind dispatch")
 	w.ruleNoIntThroughFloat(r, "C07.R5 decoded integers never pass through a floating-point type")
 	includeIf(w, r, "C01", "every first octet of an int/long form reaches the int/long reader in every dispatcher", 8, func(o *Obligation) bool {
+		// … and a typed list of longs is read under the list type its header
+		// denotes: a type slot numbered differently on the two sides makes the
+		// decoder build []int32 for a []int64 and cut every element (seeded C07m)
+		if strings.Contains(o.Key, "C01.R2 type slots") {
+			return true
+		}
 		return strings.Contains(o.Key, "C01.R2") && (strings.HasSuffix(o.Key, "emitted by int") || strings.HasSuffix(o.Key, "emitted by long"))
 	})
 	includeIf(w, r, "C13", "a refused integer makes the encode call fail: element and key errors are not dropped", 5, func(o *Obligation) bool {
